@@ -1,7 +1,20 @@
 """Driver: ./check <id> [--tier quick|thorough] [--replay file]; exit 0 held / 1 violation / 2 internal error."""
-import argparse, importlib, json, os, sys, traceback
+import argparse, importlib, json, os, signal, sys, traceback
 sys.path.insert(0, os.path.dirname(os.path.abspath(__file__)))
 import common
+
+
+class Watchdog(BaseException):
+    pass
+
+
+# a check of the unchanged tree takes minutes (quick) to a quarter of an hour (thorough); code under check that no longer
+# terminates (an integrator whose step control rejects for ever, a simulation whose clock stopped) must end in a report
+LIMIT = dict(quick=3600, thorough=4 * 3600)
+
+
+def _expired(signum, frame):
+    raise Watchdog()
 
 
 def main():
@@ -23,7 +36,19 @@ def main():
                 return 1
             print("replay: property holds on this input")
             return 0
-        mod.run(ck)
+        signal.signal(signal.SIGALRM, _expired)
+        limit = int(os.environ.get("VERIF_WATCHDOG", LIMIT[a.tier]))
+        signal.alarm(limit)
+        try:
+            mod.run(ck)
+        except Watchdog:
+            signal.alarm(0)
+            where = traceback.format_exc().splitlines()
+            where = [l.strip() for l in where if l.strip().startswith("File ")][-6:]
+            ck.violation("did-not-terminate", "the check had not finished after %d s (the unchanged tree needs minutes); it was in: %s; "
+                         "last completed case: %s" % (limit, " <- ".join(reversed(where)), json.dumps(ck.last_case, default=str)[:300]),
+                         dict(kind="did-not-terminate", last_case=ck.last_case))
+        signal.alarm(0)
         return ck.finish()
     except Exception as e:
         traceback.print_exc()
